@@ -226,6 +226,10 @@ def extract(repo):
         sst_consts(repo, out, grab)
     except OSError as ex:
         notes.append('sst: not extracted (%s)' % ex)
+    def cf_words():
+        c = read(repo, 'scrunch/src/bit_vector/cf_rrr.rs')
+        return eval_int(const_int(c, 'PARAM_WORDS_PER_BLOCK'))
+    grab('scrunchCfRrrWordsPerBlock', cf_words)
     return out, notes
 
 SST_WIRE = {'uint64': 0, 'uint32': 0, 'int64': 0, 'int32': 0, 'sint64': 0, 'sint32': 0, 'Bool': 0, 'fixed64': 1, 'sfixed64': 1,
